@@ -67,6 +67,9 @@ func probe() bool {
 			stats[in[9]] = st
 		}
 		fmt.Println("room: per kind [cases, preemptive&&!allocatable, placed, placed without eviction]", stats)
+	case "gatedstrict":
+		fmt.Println(runEnqueueCase(enqueueGatedStrictWitness(kFlat)))
+		fmt.Println(runEnqueueCase(enqueueGatedStrictWitness(kProp)))
 	case "elastic":
 		for k := int64(1); k <= 3; k += 2 {
 			in := encEnqueue(k, []eqQueue{{ID: 1, Open: 1, Mask: 1, CPU: 4000}},
@@ -81,7 +84,7 @@ func probe() bool {
 			_, qs, js := decEnqueue(in)
 			base := 2 + 7*len(qs) + 1
 			for k := range js {
-				f := o[base+15*k : base+15*k+15]
+				f := o[base+22*k : base+22*k+22]
 				if f[14] == 1 {
 					votesT++
 				}
